@@ -103,14 +103,19 @@ pub closed spec fn same_gc_part(a: A, a2: A) -> bool {
     &&& a2.counter =~~= a.counter
 }
 
-pub closed spec fn empty_state(a: A, cap: int) -> bool {
+pub closed spec fn empty_graph(a: A, cap: int) -> bool {
     &&& a.tag =~~= Seq::new(cap as nat, |i: int| 0int)
     &&& a.pers =~~= Seq::new(cap as nat, |i: int| Persistence::Empty)
     &&& a.data =~~= Seq::new(cap as nat, |i: int| Seq::<u8>::empty())
     &&& a.edges =~~= Seq::new(cap as nat, |i: int| Seq::<(Label, usize)>::empty())
+}
+/// 16 member lists, the two reserved ones kept non-empty by a sentinel, all counters zero
+pub closed spec fn empty_gc(a: A) -> bool {
     &&& a.members =~~= Seq::new(16, |b: int| if b < 2 { seq![0usize] } else { Seq::<usize>::empty() })
     &&& a.counter =~~= Seq::new(16, |b: int| 0int)
-    &&& a.next_v == 0
+}
+pub closed spec fn empty_state(a: A, cap: int) -> bool {
+    empty_graph(a, cap) && empty_gc(a) && a.next_v == 0
 }
 
 // Every step relation is the conjunction of five component relations, so that a failing obligation names the
